@@ -788,6 +788,13 @@ type EPing struct {
 	Body []byte
 }
 
+// EAgg is an e2e message received through an aggregating (slice) handler: the parent gets the
+// messages of its children in batches, every message in exactly one batch.
+type EAgg struct {
+	ID  int
+	Run int
+}
+
 // ebody is the body of e2e message id: small, or (every fourth message of a "big" case) large enough
 // to be read from the socket in several pieces, directly followed by small messages on the same link
 func ebody(id int) []byte {
@@ -831,7 +838,7 @@ type eproto struct {
 
 func newEProto(n *onet.TreeNodeInstance) (onet.ProtocolInstance, error) {
 	p := &eproto{TreeNodeInstance: n, run: -1}
-	if err := p.RegisterHandlers(p.handleGo, p.handleEPing); err != nil {
+	if err := p.RegisterHandlers(p.handleGo, p.handleEPing, p.handleEAgg); err != nil {
 		return nil, err
 	}
 	if elog != nil {
@@ -929,6 +936,20 @@ func (p *eproto) traffic(run int) {
 	if len(some) > 0 {
 		p.sendMany(run, "multicast", some)
 	}
+	// three rounds of a message type its parent receives through a slice handler
+	if !p.IsRoot() {
+		for r := 0; r < 3; r++ {
+			id := int(atomic.AddInt64(&elog.ctr, 1))
+			elog.Lock()
+			elog.sent = append(elog.sent, [2]int{id, run*100 + p.nodeIndex(p.Parent())})
+			elog.Unlock()
+			if err := p.SendToParent(&EAgg{ID: id, Run: run}); err != nil {
+				elog.Lock()
+				elog.bad++
+				elog.Unlock()
+			}
+		}
+	}
 	// every node of every run broadcasts once: root, inner nodes and leaves
 	var others []*onet.TreeNode
 	for i, n := range l {
@@ -944,6 +965,18 @@ func (p *eproto) handleGo(m struct {
 	Go
 }) error {
 	go p.traffic(m.Go.Run)
+	return nil
+}
+
+func (p *eproto) handleEAgg(ms []struct {
+	*onet.TreeNode
+	EAgg
+}) error {
+	elog.Lock()
+	for _, m := range ms {
+		elog.recv = append(elog.recv, [2]int{m.EAgg.ID, m.EAgg.Run*100 + p.nodeIndex(p.TreeNode())})
+	}
+	elog.Unlock()
 	return nil
 }
 
@@ -1436,7 +1469,7 @@ func main() {
 	if _, err := onet.GlobalProtocolRegister(e2eName, newEProto); err != nil {
 		panic(err)
 	}
-	network.RegisterMessages(&Ping{}, &Go{}, &EPing{})
+	network.RegisterMessages(&Ping{}, &Go{}, &EPing{}, &EAgg{})
 	lib.Main(lib.Harness{
 		Prop:   "C01",
 		Import: "Onet.Corr.C01",
